@@ -420,7 +420,7 @@ def opener_shape(f):
 
     out = []
     stored = {x.id for x in walk_own(f.node) if isinstance(x, ast.Name) and isinstance(x.ctx, ast.Store)}
-    if any(isinstance(x, ast.Call) and isinstance(x.func, ast.Name) and x.func.id in stored for x in walk_own(f.node)):
+    if any(isinstance(x, ast.Call) and isinstance(x.func, ast.Name) and x.func.id in stored for x in walk_own(f.node)) or any(isinstance(x, ast.With) and any(isinstance(i.context_expr, ast.IfExp) for i in x.items) for x in walk_own(f.node)):
         from ..core import inline_callable_aliases, sink_into_branches, desugar_ifexp
 
         f = inline_callable_aliases(sink_into_branches(desugar_ifexp(f)))  # `opener = A if gz else B; h = opener(path)`
